@@ -558,3 +558,75 @@ func DescribeEnv(b map[string]any) string {
 	}
 	return core.Trunc(strings.Join(ss, "; "), 1500)
 }
+
+// FromGo converts a canonical Go realisation (and a few close relatives) back
+// to a logical value; ok=false for anything else.
+func FromGo(x any) (V, bool) {
+	switch t := x.(type) {
+	case nil:
+		return Nil, true
+	case bool:
+		return Bool(t), true
+	case int:
+		return Int(int64(t)), true
+	case int64:
+		return Int(t), true
+	case float64:
+		return Float(t), true
+	case string:
+		return Str(t), true
+	case []any:
+		out := make([]V, len(t))
+		for i, e := range t {
+			v, ok := FromGo(e)
+			if !ok {
+				return Nil, false
+			}
+			out[i] = v
+		}
+		return Arr(out...), true
+	case map[string]any:
+		keys := make([]string, 0, len(t))
+		for k := range t {
+			keys = append(keys, k)
+		}
+		sort.Strings(keys)
+		out := make([]KV, 0, len(t))
+		for _, k := range keys {
+			v, ok := FromGo(t[k])
+			if !ok {
+				return Nil, false
+			}
+			out = append(out, KV{k, v})
+		}
+		return Map(out...), true
+	}
+	return Nil, false
+}
+
+// Canonical is an order-independent text form of a logical value (maps sorted by key).
+func Canonical(v V) string {
+	switch v.K {
+	case KArr:
+		ss := make([]string, len(v.A))
+		for i, e := range v.A {
+			ss[i] = Canonical(e)
+		}
+		return "[" + strings.Join(ss, ",") + "]"
+	case KMap:
+		kvs := append([]KV{}, v.M...)
+		sort.Slice(kvs, func(i, j int) bool { return kvs[i].K < kvs[j].K })
+		ss := make([]string, len(kvs))
+		for i, e := range kvs {
+			ss[i] = strconv.Quote(e.K) + ":" + Canonical(e.V)
+		}
+		return "{" + strings.Join(ss, ",") + "}"
+	case KStr:
+		return strconv.Quote(v.S)
+	case KFloat:
+		if v.F == math.Trunc(v.F) && math.Abs(v.F) < 1e15 {
+			return strconv.FormatInt(int64(v.F), 10) // 3.0 and 3 are the same Liquid number
+		}
+	}
+	return v.String()
+}
